@@ -457,6 +457,7 @@ type Clause struct {
 	Text string
 	Line int
 	Tag  string // optional label:  ensures [name] expr
+	Assumed bool // `trust [tag] e`: exported to callers like an ensures, NOT proved here, listed as an assumption
 }
 
 type LoopSpec struct {
@@ -524,7 +525,7 @@ var clauseKeywords = map[string]bool{
 	"func": true, "end": true, "props": true, "requires": true, "ensures": true, "modifies": true,
 	"pure": true, "loop": true, "invariant": true, "decreases": true, "unroll": true, "define": true,
 	"axiom": true, "constglobal": true, "stable": true, "usestable": true, "inline": true, "nopanic": true, "ieee": true, "assume": true,
-	"trusted": true, "note": true, "fresh": true, "lemma": true, "hint": true, "opaque": true, "declare": true, "import": true, "ghost": true,
+	"trusted": true, "note": true, "fresh": true, "lemma": true, "hint": true, "trust": true, "opaque": true, "declare": true, "import": true, "ghost": true,
 }
 
 func ParseContractFile(path string) (*ContractFile, error) {
@@ -651,6 +652,13 @@ func ParseContractFile(path string) (*ContractFile, error) {
 				return nil, err
 			}
 			cur.Lemmas = append(cur.Lemmas, c)
+		case "trust":
+			c, err := mk(rc)
+			if err != nil {
+				return nil, err
+			}
+			c.Assumed = true
+			cur.Ensures = append(cur.Ensures, c)
 		case "hint":
 			c, err := mk(rc)
 			if err != nil {
